@@ -68,6 +68,12 @@ impl Randomable<f64> for Range<f64> {
     fn gen_from_u64(self, rng: u64) -> f64 {
         assert!(!self.is_empty());
         let len = self.end - self.start;
-        (rng as f64 / u64::MAX as f64) * len + self.start
+        let x = (rng as f64 / u64::MAX as f64) * len + self.start;
+        // the scaling can round up to `end` (or overflow for ranges wider than f64::MAX)
+        if x < self.end {
+            x
+        } else {
+            self.end.next_down()
+        }
     }
 }
